@@ -378,7 +378,10 @@ class CallGraphQuery:
         if status == "RUNNING":
             return Job.end_time.is_(None) & Job.call_hash.is_(None)
         elif status == "CACHED":
-            return Job.cached.is_(True)
+            # A job whose reduction was cached (or that was collapsed into an equivalent job) but
+            # whose evaluation failed is recorded with cached=True and an ErrorValue result. It is
+            # displayed as FAILED (see Job.calc_status), so it must not match CACHED as well.
+            return Job.cached.is_(True) & Value.type.is_distinct_from(REDUN_ERROR_TYPE_NAME)
         elif status == "FAILED":
             return Value.type == REDUN_ERROR_TYPE_NAME
         elif status == "DONE":
